@@ -503,6 +503,26 @@ fn sanitize_destination_path(dest: &Path) -> Result<&Path, std::io::Error> {
         })
 }
 
+/// check whether a member name stays inside of the directory it gets joined to
+///
+/// Same rule as `ZipFile::enclosed_name`: no root or prefix and never more `..` than
+/// normal components before.
+fn is_enclosed_name(name: &str) -> bool {
+    let mut depth = 0usize;
+    for component in Path::new(name).components() {
+        match component {
+            std::path::Component::Prefix(_) | std::path::Component::RootDir => return false,
+            std::path::Component::ParentDir => match depth.checked_sub(1) {
+                Some(d) => depth = d,
+                None => return false,
+            },
+            std::path::Component::Normal(_) => depth += 1,
+            std::path::Component::CurDir => (),
+        }
+    }
+    !name.contains('\0')
+}
+
 /// extract all files from the archive to a target directory
 ///
 /// # Arguments
@@ -535,10 +555,11 @@ pub fn extract_to_dir<RS: Read + Seek + HasLength>(
                 &file
             };
             let target_file = target_dir.join(new_file_name);
-            if !target_file.exists() {
-                files_filter.push(file); // need the unmapped name here
-            } else {
+            // only a file inside of target_dir can have been extracted already
+            if is_enclosed_name(new_file_name) && target_file.is_file() {
                 extracted.push(new_file_name.into());
+            } else {
+                files_filter.push(file); // need the unmapped name here
             }
         }
         Some(files_filter)
